@@ -16,6 +16,9 @@ combinators (`filter`, `map_or_else`, `then`, ..), match guards, early `continue
 same thing.
 
   Engine(prog, root)        assumption independent: push-site aware slicer, parameter bindings, per-edge conditions
+                            (env_steps: the in-place members of the delta family — an Env that is updated through
+                            `&mut` by them, directly, in a loop or inside a private helper, is described in functional
+                            form, so that in-place and nested / folded applications are one value)
   Spec(engine, decider)     one case: edge decisions, feasible blocks, specialised slicer, path events
   ScopeCase / ArmCase       the deciders of the two tables
 """
@@ -47,12 +50,20 @@ class PSlicer(Slicer):
     (('call', '<push>', (value,), (fn, bb))), and Vec::push is an appender like OsString::push"""
     APPENDERS = set(Slicer.APPENDERS) | {VEC_PUSH}
 
-    def __init__(self, prog, spec=None, symbolic=False):
+    # names of the functions that apply a delta to the environment behind their `&mut Env` argument (the in-place
+    # members of the delta family).  When set, an owned Env local that is handed to them by `&mut` is described in
+    # functional form — `d.apply_in_place(&mut r)` makes r = apply_in_place(d, <r before>) — so that
+    #     let mut r = self.all.apply(env); self.build.apply_in_place(&mut r); r
+    # and self.build.apply(&self.all.apply(env)) are the same value.  None: environments are not described by content
+    env_steps = None
+
+    def __init__(self, prog, spec=None, symbolic=False, env_steps=None):
         Slicer.__init__(self, prog)
         self.spec = spec
         self.symbolic_upvars = symbolic
+        self.env_steps = env_steps
         if not symbolic:
-            self._sym = self.__class__(prog, spec, True)
+            self._sym = self.__class__(prog, spec, True, env_steps)
 
     def _feasible(self, fn, bb):
         return True
@@ -101,6 +112,11 @@ class PSlicer(Slicer):
         if idx is None:
             idx = {}
             refs = {}
+            if self.env_steps is not None:
+                # a `&mut Env` parameter stands for the environment behind it (helpers that are handed the accumulator)
+                for p_ in range(1, fn.argc + 1):
+                    if (fn.locals[p_].get('ty') or '') == '&mut ' + ENV_T:
+                        refs[p_] = p_
             for _ in range(2):
                 for b in fn.blocks:
                     for st in b['s']:
@@ -131,6 +147,8 @@ class PSlicer(Slicer):
                         kind = 'take'       # the content moves out (the value of the call), an empty one stays behind
                     elif fn.locals[refs[pl[0]]].get('head') in self.CONTENT_TYPES:
                         kind = 'other'
+                    elif self.env_steps is not None and fn.locals[refs[pl[0]]].get('ty') in (ENV_T, '&mut ' + ENV_T):
+                        kind = 'envstep' if (not c.indirect and c.name in self.env_steps and len(c.args) == 2 and i == 1) else 'envother'
                     else:
                         continue       # iterators, maps, the environment: not values this slicer describes by content
                     idx.setdefault(refs[pl[0]], []).append((kind, c))
@@ -159,6 +177,8 @@ class PSlicer(Slicer):
         muts = [(k, c) for k, c in muts if self._feasible(fn, c.bb)]
         if not muts:
             return v
+        if any(k in ('envstep', 'envother') for k, _ in muts):
+            return self._env_steps_value(fn, local, v, muts, seen, d, def_bbs)
         fresh = v[0] == 'call' and v[1].endswith(('::new', '::with_capacity', '::default'))
         parts = []
         for kind, c in muts:
@@ -172,6 +192,100 @@ class PSlicer(Slicer):
             pv = self.operand(fn, c.args[1], seen, d)
             parts.append(('call', PUSH if self._certain(fn, def_bbs, c.bb) else MAYBE, (pv,), site))
         return ('concat', v, tuple(parts), fresh)
+
+
+    def _env_steps_value(self, fn, local, v, muts, seen, d, def_bbs, depth=0):
+        """the environment in local `local` (an owned Env, or the `&mut Env` parameter of a private helper) after the
+        in-place delta applications it is handed to, in functional form (in reverse post-order; an application that is
+        not on every feasible path is a phi of with / without, one inside a loop is the step of a loop over the
+        accumulator, a private helper that is handed `&mut` the environment contributes what it does to its
+        parameter).  The slicer is flow-insensitive: the value is that of the local once all updates are done, so it
+        is only given when nothing reads the local before an update, nothing else holds a `&mut` to it, and it is
+        not assigned a second time"""
+        if len(def_bbs) > 1 or fn.partial_defs(local):
+            return ('unknown', 'environment updated in place and assigned again')
+        refs = self._cache.get(('refs', fn.path), {})
+        ref_locals = {r for r, base in refs.items() if base == local and r != local}
+        all_mut_bbs = {c.bb for _, c in self._mutations(fn, local)}
+        mut_bbs = {c.bb for _, c in muts}
+
+        def reborrow(bi, idx):
+            st = fn.blocks[bi]['s'][idx]
+            return len(st[1]) == 1 and st[1][0] in ref_locals
+        for r in ref_locals:
+            if fn.partial_defs(r) or len(fn.whole_defs(r)) != 1:
+                return ('unknown', 'a `&mut` to the environment is reassigned')
+            for bi, kind, idx, how, pl in fn.uses_of(r):
+                if kind == 'drop' or not self._feasible(fn, bi):
+                    continue
+                if kind == 'arg' and bi in all_mut_bbs:
+                    continue
+                if kind == 'stmt' and how == 'refmut' and reborrow(bi, idx):
+                    continue
+                return ('unknown', 'environment borrowed mutably by something else than a call')
+        for bi, kind, idx, how, pl in fn.uses_of(local):
+            if kind == 'drop' or not self._feasible(fn, bi):
+                continue
+            if kind == 'stmt' and how == 'refmut' and reborrow(bi, idx):
+                continue            # the `&mut` handed to one of the calls in `muts`
+            if kind == 'arg' and bi in all_mut_bbs:
+                continue            # a `&mut Env` parameter handed on as it is
+            if how in ('refmut', 'rawptr') or (kind == 'stmt' and how == 'm' and len(pl) > 1):
+                # `&mut env.inner`, `&mut *env` kept in something that is not a call argument, a field moved out: the
+                # environment changes in a way that is not an application of a delta
+                return ('unknown', 'environment modified directly')
+            later = set()
+            for s_ in fn.succs(bi):
+                later |= fn.reachable(s_)
+            if kind == 'stmt':
+                later.add(bi)       # a statement precedes the call that ends its block
+            if later & mut_bbs:
+                return ('unknown', 'environment read before an in-place update')
+        acc = v
+        for kind, c in muts:
+            site = (fn.path, c.bb)
+            after = set()
+            for s_ in fn.succs(c.bb):
+                after |= fn.reachable(s_)
+            looped = c.bb in after and not any(b in after for b in def_bbs)
+            if kind == 'envstep':
+                recv = self.operand(fn, c.args[0], seen, d)
+                if looped:
+                    # once per iteration of a loop the accumulator is defined outside of
+                    acc = ('phi', (acc, ('call', c.name, (recv, ('unknown', 'cycle')), site)))
+                    continue
+                nxt = ('call', c.name, (recv, acc), site)
+            else:
+                nxt = None if looped else self._env_helper_value(fn, local, c, acc, seen, d, depth)
+                if nxt is None:
+                    acc = ('call', '<env-mutated-by>', (('const', c.name or 'indirect call'), acc), site)
+                    continue
+            acc = nxt if self._certain(fn, def_bbs, c.bb) else ('phi', (acc, nxt))
+        return acc
+
+    def _env_helper_value(self, fn, local, c, acc, seen, d, depth):
+        """c hands `&mut` the environment to a private helper (`self.apply_scope_specific(scope, &mut env)`): what the
+        environment is afterwards = what the helper makes of its parameter, with the arguments of this call put in.
+        None: not a helper this can be said of"""
+        if c.indirect or depth > 2:
+            return None
+        hs = [h for h in self.prog.callee_fns(c)]
+        if len(hs) != 1 or hs[0].kind == 'Closure' or hs[0].crate != fn.crate or hs[0].path == fn.path or hs[0].argc != len(c.args):
+            return None
+        h = hs[0]
+        self._mutations(fn, local)
+        refs = self._cache.get(('refs', fn.path), {})
+        idx = [i for i, a in enumerate(c.args) if op_place(a) and len(op_place(a)) == 1 and refs.get(op_place(a)[0]) == local]
+        if len(idx) != 1 or h.args[idx[0]] != '&mut ' + ENV_T or ENV_T in (h.ret or ''):
+            return None
+        i = idx[0]
+        pv = ('param', h.path, i, h.local_name(i + 1))
+        hm = [(k, c2) for k, c2 in self._mutations(h, i + 1) if self._feasible(h, c2.bb)]
+        hv = self._env_steps_value(h, i + 1, pv, hm, set(), d + 1, [], depth + 1)      # (also when there are no calls: the guards)
+        if hv[0] == 'unknown':
+            return hv
+        bind = {(h.path, j): (acc if j == i else self.operand(fn, c.args[j], seen, d)) for j in range(h.argc)}
+        return subst(hv, bind, self)
 
 
 class ASlicer(PSlicer):
@@ -252,10 +366,11 @@ def edge_conds(fn, sl):
 # engine / spec
 # ---------------------------------------------------------------------------------------------------------------
 class Engine:
-    def __init__(self, prog, root):
+    def __init__(self, prog, root, env_steps=None):
         self.prog = prog
         self.root = root
-        self.psl = PSlicer(prog)
+        self.env_steps = env_steps
+        self.psl = PSlicer(prog, env_steps=env_steps)
         self.bind = {}
         self._ec = {}
         self._has = {}
@@ -357,6 +472,7 @@ class EngineView:
     def __init__(self, base, extra):
         self.base, self.extra = base, dict(extra)
         self.prog, self.root, self.psl = base.prog, base.root, base.psl
+        self.env_steps = getattr(base, 'env_steps', None)
         self.bind = dict(base.bind)
         self.bind.update(self.extra)
 
@@ -387,7 +503,7 @@ class Spec:
         self._deciding = set()
         self._estate = {}
         self._reach = {}
-        self.asl = ASlicer(self.prog, self)
+        self.asl = ASlicer(self.prog, self, env_steps=getattr(engine, 'env_steps', None))
         self.seen_sites = set()
         self._subs = {}
 
@@ -586,14 +702,81 @@ def delta_family(prog):
     if _family_cache.get('prog') is prog:
         return _family_cache['res']
     psl = Slicer(prog)
+    eo = EnvObjects(prog)
 
-    def cand(f):
+    def functional(f):
         return (f.kind != 'Closure' and f.self_head == LED and f.argc == 2 and f.ret == ENV_T and
                 f.args[0] == '&' + LED and f.args[1] in ('&' + ENV_T, ENV_T))
 
+    def cand(f):
+        return functional(f) or is_inplace_sig(f)
+
+    def only_calls(f, target):
+        """f does nothing but cloning and calling `target` once, without branching"""
+        for c in f.calls:
+            if c.indirect or not (c.name == target or (c.name or '').endswith(('Clone>::clone', 'Clone::clone'))):
+                return False
+        return sum(1 for c in f.calls if c.name == target) == 1 and not any(b['t']['t'] == 'switch' for b in f.blocks)
+
+    def delegate_inplace(f):
+        """the two ownership bridges between the functional and the in-place form of the application:
+             fn apply(&self, env: &Env) -> Env { let mut r = env.clone(); self.apply_in_place(&mut r); r }   (or `mut env: Env`)
+             fn apply_in_place(&self, env: &mut Env) { *env = self.apply(env) }
+        decided on which environment *object* is handed on and handed back (EnvObjects)"""
+        if functional(f):
+            cs = [c for c in f.calls if not c.indirect and c.name in prog.fns and c.name != f.path and is_inplace_sig(prog.fns[c.name])]
+            if len(cs) != 1 or len(cs[0].args) != 2 or not only_calls(f, cs[0].name):
+                return None
+            c = cs[0]
+            a0 = strip(psl.operand(f, c.args[0]))
+            if not (a0[0] == 'param' and a0[1] == f.path and a0[2] == 0):
+                return None
+            pl = op_place(c.args[1])
+            if not pl or not (f.locals[pl[0]].get('ty') or '').startswith('&mut '):
+                return None
+            obj = eo.operand(f, c.args[1])
+            if obj != eo.local(f, 0):
+                return None     # what is returned is not the environment the entries were applied to
+            if obj == ('param', f.path, 1) and f.args[1] == ENV_T:
+                return prog.fns[c.name]
+            if obj[0] == 'obj' and obj[1] == f.path and eo.cloned_from(f, obj[2]) == {('param', f.path, 1)}:
+                return prog.fns[c.name]
+            return None
+        if is_inplace_sig(f):
+            cs = [c for c in f.calls if not c.indirect and c.name in prog.fns and c.name != f.path and functional(prog.fns[c.name])]
+            if len(cs) != 1 or len(cs[0].args) != 2 or not only_calls(f, cs[0].name):
+                return None
+            c = cs[0]
+            a0 = strip(psl.operand(f, c.args[0]))
+            if not (a0[0] == 'param' and a0[1] == f.path and a0[2] == 0) or eo.operand(f, c.args[1]) != ('param', f.path, 1):
+                return None
+            if not c.dest or (len(c.dest) != 1 and c.dest != [2, '*']):
+                return None
+            # the result is stored through the `&mut Env`: `*env = <result>`, on the way to every return
+            tmp = {c.dest[0]} if len(c.dest) == 1 else set()
+            stored = []
+            for bi, b in enumerate(f.blocks):
+                for st in b['s']:
+                    if st[0] == '=' and st[2]['r'] == 'use' and op_place(st[2]['o']) and len(op_place(st[2]['o'])) == 1 and op_place(st[2]['o'])[0] in tmp:
+                        if len(st[1]) == 1:
+                            tmp.add(st[1][0])
+                        elif st[1] == [2, '*']:
+                            stored.append(bi)
+            if c.dest == [2, '*']:
+                stored.append(c.bb)
+            rets = f.return_blocks()
+            if len(stored) == 1 and rets and all(f.dominates(stored[0], r) for r in rets):
+                return prog.fns[c.name]
+        return None
+
     def delegate(f):
+        g = delegate_inplace(f)
+        if g is not None:
+            return g
+        if not functional(f):
+            return None
         rv = strip(psl.local(f, 0))
-        if not (rv[0] == 'call' and rv[1] in prog.fns and rv[1] != f.path and len(rv[2]) == 2 and cand(prog.fns[rv[1]])):
+        if not (rv[0] == 'call' and rv[1] in prog.fns and rv[1] != f.path and len(rv[2]) == 2 and functional(prog.fns[rv[1]])):
             return None
         for i, a in enumerate(rv[2]):
             a = strip(a)
@@ -632,6 +815,17 @@ def is_dapply(prog, name):
     return name == L.DAPPLY or name in delta_family(prog)[1]
 
 
+def is_inplace_sig(f):
+    """(&LayerEnvDelta, &mut Env) -> (): the shape of a per-delta application that updates the environment in place"""
+    return (f.kind != 'Closure' and f.self_head == LED and f.argc == 2 and f.ret == '()' and
+            f.args[0] == '&' + LED and f.args[1] == '&mut ' + ENV_T)
+
+
+def inplace_steps(prog):
+    """the members of the delta family that apply a delta to the environment behind a `&mut Env`"""
+    return frozenset(p for p in delta_family(prog)[1] if p in prog.fns and is_inplace_sig(prog.fns[p]))
+
+
 # ---------------------------------------------------------------------------------------------------------------
 # R1: the deltas LayerEnv::apply folds, per Scope variant
 # ---------------------------------------------------------------------------------------------------------------
@@ -655,11 +849,13 @@ class ScopeEval:
     """the ordered list of delta labels applied for one Scope variant, or None (+ self.why) when the returned value is
     not a left fold of LayerEnvDelta::apply over an ordered collection starting from the input env"""
 
-    def __init__(self, engine, variant):
+    def __init__(self, engine, variant, stack=()):
         self.engine = engine
         self.prog = engine.prog
         self.f = engine.root
         self.variant = variant
+        self.stack = tuple(stack)      # the scopes LayerEnv::apply is being evaluated for when it calls itself
+        self._opt_of = {}
         self.spec = Spec(engine, ScopeCase(engine.root, variant))
         self.asl = self.spec.asl
         self.why = None
@@ -743,7 +939,7 @@ class ScopeEval:
                     # `match map.get(key) { Some(delta) => delta.apply(&acc), None => acc }`
                     short = min(seqs, key=len)
                     longs = [(a, s) for a, s in zip(alts, seqs) if s != short]
-                    if all(len(s) == len(short) + 1 and s[:-1] == short and self.optional_step(a) for a, s in longs) and \
+                    if all(len(s) == len(short) + 1 and s[:-1] == short and self.optional_step(a, s[-1]) for a, s in longs) and \
                             len({s[-1] for _, s in longs}) == 1:
                         last = longs[0][1][-1]
                         return short + [last[:-len('!unguarded')] + '?' if last.endswith('!unguarded') else last + '!not-a-lookup']
@@ -761,17 +957,41 @@ class ScopeEval:
                         b[0] == 'call' and self.is_step(b[1]) and b[2][0] == ('unwrap', o):
                     return s0 + [s1[-1][:-len('!unguarded')] + '?']
             return self.fail('result is not a fold of delta applications from the input env: ' + vstr(v)[:120])
+        if v[0] == 'call' and v[1] == self.f.path and len(v[2]) == 3:
+            # LayerEnv::apply defined in terms of itself for another, literal scope — `self.apply(Scope::All, env)` is
+            # the list of deltas of that scope (evaluated as its own case), applied to what is handed in as env
+            me, sc, e = (strip(x) for x in v[2])
+            if not (me[0] == 'param' and me[1] == self.f.path and me[2] == 0):
+                return self.fail('apply called on another layer environment: ' + vstr(me)[:60])
+            if not (sc[0] == 'agg' and sc[1] == SCOPE and sc[2] and not sc[3]):
+                return self.fail('apply calls itself with a scope that is not a literal: ' + vstr(sc)[:60])
+            if sc[2] == self.variant or sc[2] in self.stack:
+                return self.fail('apply calls itself for Scope::%s without end' % sc[2])
+            base = self.seq(e, d + 1)
+            if base is None:
+                return None
+            sub = ScopeEval(self.engine, sc[2], self.stack + (self.variant,))
+            inner = sub.run()
+            if inner is None:
+                return self.fail('Scope::%s: %s' % (sc[2], sub.why))
+            self.shape = self.shape or sub.shape or 'recursive'
+            return base + inner
         if v[0] == 'call' and v[1] in self.prog.fns and self.prog.fns[v[1]].kind != 'Closure' and not self.is_step(v[1]):
             iv = self.asl.inline_call(v)
             if iv is not None:
                 return self.seq(iv, d + 1)
         return self.fail('result is not a fold of delta applications from the input env: ' + vstr(v)[:120])
 
-    def optional_step(self, a):
-        """a = delta.apply(acc) where delta is the payload of an Option and the call runs exactly when it is Some"""
-        if not (a[0] == 'call' and self.is_step(a[1]) and len(a) > 3 and a[3] and a[2][0][0] == 'unwrap'):
+    def optional_step(self, a, label=None):
+        """a = delta.apply(acc) where delta is the payload of an Option and the call runs exactly when it is Some — or
+        a call of a private helper that ends up applying that payload last (`Some(d) => self.all_then(env, &[d])`):
+        what matters is that the alternative is computed exactly when the Option the delta comes from is Some"""
+        if not (a[0] == 'call' and len(a) > 3 and a[3]):
             return False
-        return self.guarded_by_some(a[3], a[2][0][1])
+        if self.is_step(a[1]) and a[2][0][0] == 'unwrap':
+            return self.guarded_by_some(a[3], a[2][0][1])
+        optv = self._opt_of.get(label)
+        return optv is not None and a[1] in self.prog.fns and self.guarded_by_some(a[3], optv)
 
     def loop_ok(self, step):
         """the step is the only delta application inside the loop that yields its element"""
@@ -886,6 +1106,7 @@ class ScopeEval:
                 return desc + '?'
             if maybe is not None and v[0] == 'unwrap' and self.guarded_by_some(maybe, v[1]):
                 return desc + '?'
+            self._opt_of[desc + '!unguarded'] = s      # the Option the delta is the payload of
             return desc + '!unguarded'
         if maybe is not None:
             return 'maybe(%s)' % vstr(s)[:60]
@@ -900,8 +1121,12 @@ class ScopeEval:
         for cd in conditions(g, site[1], self.engine.psl):
             if self.spec.decider.decide(self.spec, g, cd) is None:
                 und.append(cd)
-        return (len(und) == 1 and und[0].kind == 'variant' and und[0].enum == 'std::option::Option' and und[0].outcome == frozenset({'Some'})
-                and und[0].subject is not None and canon(strip(und[0].subject)) == canon(strip(optv)))
+        if not (len(und) == 1 and und[0].kind == 'variant' and und[0].enum == 'std::option::Option' and und[0].outcome == frozenset({'Some'})
+                and und[0].subject is not None):
+            return False
+        want = canon(strip(optv))
+        # (inside a private helper the subject is in the helper's terms: its parameters are bound to what apply hands in)
+        return canon(strip(und[0].subject)) == want or canon(strip(self.spec.to_root(und[0].subject))) == want
 
 
 def order_changing_calls(prog, f):
@@ -920,7 +1145,7 @@ def order_changing_calls(prog, f):
 def scope_tables(prog):
     """({variant: [labels] | None}, {variant: reason}, {variant: 'fold'|'loop'|None}) of LayerEnv::apply"""
     f = prog.fn(L.APPLY)
-    eng = Engine(prog, f)
+    eng = Engine(prog, f, env_steps=inplace_steps(prog))
     table, why, shape = {}, {}, {}
     for v in prog.adt(SCOPE)['variants']:
         name = v['name']
@@ -976,6 +1201,148 @@ def rank_table(prog, sl, cmpf):
             ifn = prog.fns[x[1]]
             break
     return ifn, tables[0], good, shown
+
+
+def suffix_table(prog, sl):
+    """(writer Fn, {variant: file suffix}, info) — layer_env_common.writer_suffix_table, and when that does not find
+    the five suffixes because the file name is not computed where the file is written: the same table read off the
+    *element* of the collection of planned files the write loop ranges over (planned_suffix_table)"""
+    wd, ws, winfo = L.writer_suffix_table(prog, sl)
+    if len(ws) == 5:
+        return wd, ws, winfo
+    try:
+        ws2 = planned_suffix_table(prog, sl)
+    except Exception:
+        ws2 = {}
+    return wd, (ws2 if len(ws2) > len(ws) else ws), winfo
+
+
+def _collection_elements(psl, coll, depth=0):
+    """values of the elements of an ordered collection that is built before it is iterated: what is pushed onto a
+    Vec (each push site one alternative), the results of map / filter_map closures of a collected iterator chain,
+    through private functions that return the collection.  None: not understood"""
+    coll = strip(coll)
+    if depth > 4:
+        return None
+    if coll[0] == 'concat':
+        out = []
+        for p in coll[2]:
+            if not (p[0] == 'call' and p[1] in (PUSH, MAYBE) and len(p) > 3 and p[3] and (len(p[3]) < 4 or p[3][3] == 'push')):
+                return None
+            out.append(p[2][0])
+        base = strip(coll[1])
+        if not (coll[3] or (base[0] == 'call' and base[1].split('::')[-1] in ('new', 'with_capacity', 'default'))):
+            more = _collection_elements(psl, base, depth + 1)
+            if more is None:
+                return None
+            out = more + out
+        return out
+    if coll[0] == 'call' and coll[1] in psl.prog.fns and psl.prog.fns[coll[1]].kind != 'Closure':
+        iv = psl.inline_call(coll)
+        return _collection_elements(psl, iv, depth + 1) if iv is not None else None
+    if coll[0] == 'call':
+        al = iters.alts(psl, coll)
+        if al and not iters.trivial(al, coll):
+            out = []
+            for e, forall, fl in al:
+                if forall is not None and strip(forall)[0] == 'call' and strip(forall)[1] in psl.prog.fns:
+                    more = _collection_elements(psl, forall, depth + 1)
+                    if more is None:
+                        return None
+                    out.extend(more)
+                else:
+                    out.append(e)
+            return out
+    return None
+
+
+def _name_parts(psl, v, depth=0):
+    """the pieces a string is put together from, in order (PSlicer values: pushes carry their site)"""
+    v = strip(v)
+    if depth > 6:
+        return [v]
+    if v[0] == 'concat':
+        out = [] if v[3] else _name_parts(psl, v[1], depth + 1)
+        for p in v[2]:
+            if p[0] == 'call' and p[1] == PUSH and len(p[2]) == 1:
+                out.extend(_name_parts(psl, p[2][0], depth + 1))
+            elif p[0] == 'call' and p[1] in (MAYBE, TAKE):
+                out.append(('unknown', 'pushed on some paths only'))
+            else:
+                out.extend(_name_parts(psl, p, depth + 1))
+        return out
+    if v[0] == 'call' and len(v[2]) == 1 and v[1].endswith(KEEP):
+        return _name_parts(psl, v[2][0], depth + 1)
+    if v[0] == 'call' and v[1].endswith(FRESH) and not v[2]:
+        return []
+    if v[0] == 'call' and v[1] in psl.prog.fns and psl.prog.fns[v[1]].kind != 'Closure':
+        iv = psl.inline_call(v)
+        if iv is not None and canon(iv) != canon(v):
+            return _name_parts(psl, iv, depth + 1)
+    return [v]
+
+
+def planned_suffix_table(prog, sl):
+    """{variant: suffix} of the files the per-directory writer creates when it works in two phases — first the list of
+    (file name, contents) for every entry, then one write per element of that list (a private function returning a Vec
+    filled in a loop, or a collected map over the entries): the file name of the WRITE effect is a projection of the
+    loop element; the element is what was pushed / mapped, whose name component must be
+    [variable name of the entry] + select(behaviour of the same entry){variant => suffix}"""
+    from .lib.effects import Effects
+    L.resolve_roles(prog, sl)
+    f = prog.fn(L.W_DIR)
+    psl = PSlicer(prog)
+    E = Effects(prog, sl)
+    root = L.param_pred(f, 1)
+    tables = []
+    for e in E.expand(f, 'may'):
+        if e.kind != 'WRITE' or e.path is None:
+            continue
+        cs = L.comps(e.path, root)
+        if cs is None or len(cs) != 1 or isinstance(cs[0], str):
+            return {}
+        coll, proj = L.loop_element(cs[0])
+        if coll is None:
+            return {}
+        if coll[0] not in ('call', 'concat'):
+            return {}
+        # the collection, with the pushes that fill it (the library slicer does not describe vectors by content)
+        if coll[0] == 'call' and coll[1] not in prog.fns:
+            site = coll[3] if len(coll) > 3 else None
+            c = prog.fns[site[0]].call_at(site[1]) if site and site[0] in prog.fns else None
+            if c is not None:
+                coll = psl._call_value(prog.fns[site[0]], c, set(), 0)
+        elems = _collection_elements(psl, coll)
+        if not elems:
+            return {}
+        for el in elems:
+            name = EntryView.proj_of(strip(el), proj)
+            if name[0] == 'field':
+                name = psl._field(name[1], name[2])
+            rows, rendered = {}, []
+            for x in _name_parts(psl, name):
+                c1, p1 = L.loop_element(x)
+                if c1 is not None and L.self_field(f, c1) == 'entries' and p1 == ('0', '1'):
+                    rendered.append('NAME')
+                elif x[0] == 'select' and x[2] == MB:
+                    c2, p2 = L.loop_element(x[1])
+                    if c2 is not None and L.self_field(f, c2) == 'entries' and p2 == ('0', '0'):
+                        rendered.append('SUFFIX')
+                        for names, val in x[3]:
+                            val = strip(val)
+                            for n in names:
+                                if val[0] == 'const' and isinstance(val[1], str) and n not in rows:
+                                    rows[n] = val[1]
+                    else:
+                        rendered.append('?')
+                else:
+                    rendered.append('?')
+            if rendered != ['NAME', 'SUFFIX']:
+                return {}
+            tables.append(rows)
+    if not tables or any(t != tables[0] for t in tables):
+        return {}
+    return tables[0]
 
 
 # ---------------------------------------------------------------------------------------------------------------
@@ -1110,9 +1477,27 @@ class ArmCase:
         # (`.filter(|((b, _), _)| b == wanted)`: inside the loop `wanted` is the entry's behaviour)
         return self.view is not None and bool(self.view.alias_keys) and canon(strip(v)) in self.view.alias_keys
 
-    def is_env(self, v):
+    psl = None      # the engine's slicer (set by arm_cases): lets is_env look through private helpers
+
+    def is_env(self, v, d=0, inner=False):
+        """v is the environment the delta is applied to (clones are transparent to the value slicer): the parameter of
+        the root, also when it is carried around a loop (`phi(env | <cycle>)`) or threaded through private helpers that
+        take an environment and hand it back (`env = self.apply_entry(env, ..)`) — which *object* that is, is R6's"""
         v = strip(v)
-        return v[0] == 'param' and v[1] == self.root.path and v[2] == 1
+        if v[0] == 'param' and v[1] == self.root.path and v[2] == 1:
+            return True
+        if d > 6:
+            return False
+        if v == ('unknown', 'cycle'):
+            return inner
+        if v[0] == 'phi':
+            alts = [strip(a) for a in v[1]]
+            return any(a != ('unknown', 'cycle') for a in alts) and all(self.is_env(a, d + 1, True) for a in alts)
+        if v[0] == 'call' and self.psl is not None and v[1] in self.psl.prog.fns and self.psl.prog.fns[v[1]].kind != 'Closure' \
+                and self.psl.prog.fns[v[1]].ret == ENV_T and v[1] != self.root.path:
+            iv = self.psl.inline_call(v)
+            return iv is not None and canon(iv) != canon(v) and self.is_env(iv, d + 1, inner)
+        return False
 
     def is_name(self, spec, v, at):
         return self.atoms(spec, v, at) == ('NAME',)
@@ -1995,7 +2380,12 @@ def entry_closures(engine):
             ok = init[0] == 'param' and init[1] == g.path and init[2] == 1
             if ok:
                 pre[(cl.path, 1)] = init
+            # what the closure hands back is the accumulator it was given — also when it is threaded through private
+            # helpers that take the environment by value and return it (`|acc, e| self.apply_entry(acc, e)`); that the
+            # helper returns the very object it was handed is R6's (running_env)
             rv = strip(psl.local(cl, 0))
+            if not (rv[0] == 'param' and rv[1] == cl.path):
+                rv = strip(psl.inline_deep(rv))
             returns_acc = ok and rv[0] == 'param' and rv[1] == cl.path and rv[2] == 1 and \
                 strip(psl.local(g, 0)) == strip(psl._call_value(g, c, set(), 0))
             out.append((cl, pre, returns_acc))
@@ -2045,6 +2435,7 @@ def arm_cases(prog):
                     res[(b, p, d)] = {()}       # entries of this behaviour are never visited: nothing is inserted
                     continue
                 case = ArmCase(g, b, p, d, view)
+                case.psl = eng.psl
                 spec = Spec(eng, case)
                 if view is not None and view.dynamic:
                     st = view.bind_case(spec, case)
@@ -2159,8 +2550,13 @@ class EnvObjects:
             else:
                 rs.add(('?', 'definition of _%d' % n))
         rs = {x for r in rs for x in (r[1] if r[0] == 'phi' else (r,))}
+        cyc = ('?', 'cycle')
+        if cyc in rs and len(rs) > 1:
+            # a loop-carried accumulator (`for e in es { env = step(env, e) }`): on the back edge it is itself
+            rs.discard(cyc)
         res = rs.pop() if len(rs) == 1 else ('phi', frozenset(rs))
-        self._memo[key] = res
+        if cyc not in (res[1] if res[0] == 'phi' else (res,)):
+            self._memo[key] = res       # (a result cut short by the cycle is recomputed when asked for from outside)
         return res
 
     @staticmethod
@@ -2187,6 +2583,11 @@ class EnvObjects:
         for d in f.whole_defs(n):
             if d[0] == 'call' and _is_clone(d[3]) and _env_place(f, op_place(d[3].args[0])):
                 out.add(self.operand(f, d[3].args[0]))
+            elif d[0] == 'call' and not _is_clone(d[3]) and (f.locals[n].get('ty') or '') == ENV_T and len(self._owned_args(f, d[3])) == 1 and \
+                    self.operand(f, self._owned_args(f, d[3])[0]) == ('obj', f.path, n):
+                continue        # the environment itself, moved into a call that hands it back: not where it starts
+            elif d[0] == 'stmt' and d[3]['r'] == 'use' and op_place(d[3]['o']) and self.place(f, op_place(d[3]['o'])) == ('obj', f.path, n):
+                continue        # .. and moved back (`env = step(env, e)` inside the entry loop)
             else:
                 out.add(('?', 'not a clone'))
         return out
@@ -2250,7 +2651,20 @@ def running_env(prog):
     ret = eo.local(g, 0)
     env_i = 1
     acc = rg if rg is not None else ret
-    if acc[0] == 'param' and acc[1] == g.path:
+    inplace = is_inplace_sig(g)
+    if inplace:
+        # the core updates the environment behind its `&mut Env`: that one is the environment being built.  That it
+        # starts as a copy of the input env and is what is returned is a fact about the functional members of the
+        # family, which delta_family only admits as `{ let mut r = env.clone(); core(self, &mut r); r }`; the in-place
+        # calls of LayerEnv::apply are put into functional form and followed back to the input env by R1
+        if rg is None:
+            acc = ('param', g.path, env_i)      # (the core itself hands it to closures / helpers only)
+        ret = ('param', g.path, env_i)          # what the caller sees afterwards
+        if acc != ret:
+            out.append(('violated' if acc[0] in ('param', 'obj') else 'unproven', gw,
+                        'the entries are applied to the %s, not to the environment behind the `&mut Env` the application is handed — '
+                        'the caller does not see them' % eo.describe(acc)))
+    elif acc[0] == 'param' and acc[1] == g.path:
         if not (acc[2] == env_i and g.args[env_i] == ENV_T):
             out.append(('violated' if acc[2] == env_i else 'unproven', gw,
                         'the environment the entries are applied to is the %s, not a copy of the input env' % eo.describe(acc)))
@@ -2259,7 +2673,7 @@ def running_env(prog):
             out.append(('unproven', gw, 'the environment the entries are applied to (%s) does not start as a clone of the input env' % eo.describe(acc)))
     else:
         out.append(('unproven', gw, 'the environment the entries are applied to is the %s' % eo.describe(acc)))
-    if rg is not None and ret != rg:
+    if not inplace and rg is not None and ret != rg:
         out.append(('violated' if ret[0] in ('param', 'obj') else 'unproven', gw,
                     'the environment returned (%s) is not the one the entries were applied to (%s)' % (eo.describe(ret), eo.describe(rg))))
 
